@@ -244,7 +244,7 @@ def directed_die_cases(rng, salt):
          [B(1), A(1, "r", 1), A(1, "w", 2, 1001), D(1), B(2), A(2, "r", 3), W(2, "r", 2), T(2), B(2), A(2, "w", 3, 2001), E(2)]),
         # bank: 3 has left x and not reached y when the sharer dies; a survivor audits (y first, then x)
         ("die-bank", 2, [1, 2], True,
-         [B(2), A(2, "r", 1), A(2, "r", 2), E(2), B(1), A(1, "r", 1), A(1, "r", 2), A(1, "w", 1, 97), D(1),
+         [B(2), A(2, "r", 1), A(2, "r", 2), E(2), B(1), A(1, "r", 1), A(1, "w", 1, 97), D(1),
           B(2), A(2, "r", 2), W(2, "r", 1), T(2)]),
         # bank, both cells written (the sum holds, the section never committed)
         ("die-bank-both", 2, [1, 2], True,
